@@ -296,6 +296,7 @@ def mutate(rng, o, log):
     nodes = collect_nodes(o)
     choices = []
     if nodes["tags"]:
+        choices += ["html_child_iadd", "html_attr_iadd", "str_child_iadd"]
         choices += ["append", "insert", "extend", "setattr", "update", "add_class", "remove_class", "add_style", "name", "add_ws", "delchild", "popattr"]
     if nodes["lists"]:
         choices += ["list_append", "list_iadd"]
@@ -307,6 +308,22 @@ def mutate(rng, o, log):
         return False
     m = rng.choice(choices)
     log.append(m)
+    if m in ("html_child_iadd", "html_attr_iadd", "str_child_iadd"):
+        # augmented assignment on a child / attribute value (strings and HTML() are values: the other tree keeps its own)
+        for t in rng.sample(nodes["tags"], len(nodes["tags"])):
+            if m == "html_attr_iadd":
+                ks = [k for k, v in t.attrs.items() if isinstance(v, ht.HTML)]
+                if ks:
+                    t.attrs[ks[0]] += " added"
+                    return True
+            else:
+                want = ht.HTML if m == "html_child_iadd" else str
+                idx = [i for i, c in enumerate(t.children) if type(c) is want]
+                if idx:
+                    t.children[idx[0]] += " added<&>"
+                    return True
+        log.pop()
+        return False
     if m in ("append", "insert", "extend", "setattr", "update", "add_class", "remove_class", "add_style", "name", "add_ws", "delchild", "popattr"):
         t = rng.choice(nodes["tags"])
         if m == "append":
